@@ -1,5 +1,7 @@
 """C01 on the whole-program machine: theorems in coq/props/C01.v, whole-trace correspondence, monitor(s) ['C01']"""
+import json
 import os
+import sys
 
 from harness import machine_prop
 from harness.props._machine_common import TRUSTED, ASSUMPTIONS, RULE  # noqa
@@ -29,6 +31,7 @@ def run(ctx):
     past_till(ctx, ctx.n(30, 500))
     oracle_correspondence(ctx, ctx.n(300, 3000))
     after_reuse_correspondence(ctx, ctx.n(200, 2000))
+    kernel_correspondence(ctx, ctx.n(200, 2000))
     reused_conditions(ctx, ctx.n(20, 300))
     # timed waits through the SimPy layer (Timeout, processes registered before the run, initial_time): C18's directed
     # family, its oracle is the clock arithmetic of this property
@@ -274,6 +277,103 @@ def after_reuse_correspondence(ctx, n):
             ctx.mismatch('after-reuse', {'uses': cases[i][0]}, cases[i][1], 'model differs', '')
 
 
+def kernel_correspondence(ctx, n):
+    """Kernel.v against the real `Loop`: a scripted client - the k-th activation that is executed issues the k-th list of
+    requests (schedule now / after d / at t for some target with or without a signal, revoke a signal), whatever activity it
+    is - drives a real Loop object (the "coroutines" are objects with send/throw that answer with Hibernate;
+    harness/kernel_driver.py, one child interpreter per wait-queue back end) and the Coq function `kexec`; the executed
+    sequences (time, target, signal) must be equal, for the heap back end and for USIM_WAITQUEUE=SD."""
+    rng = ctx.rng
+    cases = []
+    for _ in range(n):
+        nroots, nsig = rng.choice([1, 2, 3]), rng.choice([2, 3, 4])
+        nact = nroots + rng.choice([0, 1, 2])
+        start = rng.choice([0, 0, 5, -3])
+        script = []
+        for k in range(rng.randint(1, 14)):
+            ops = []
+            for _ in range(rng.choice([0, 1, 1, 2, 3])):
+                c = rng.random()
+                a = rng.randrange(nact)
+                sg = rng.choice([None] + list(range(nsig)))
+                if c < 0.35:
+                    ops.append(['now', a, sg])
+                elif c < 0.7:
+                    ops.append(['after', rng.choice([1, 1, 2, 3, 5]), a, sg])
+                elif c < 0.8:
+                    ops.append(['at', 1000 * (k + 1) + rng.choice([0, 0, 1, 5]), a, sg])   # always in the future: the clock is < 1000 * (k + 1) at the k-th execution
+                else:
+                    ops.append(['revoke', rng.randrange(nsig)])
+            script.append(ops)
+        cases.append(dict(nroots=nroots, nact=nact, nsig=nsig, start=start, script=script))
+    kernel_check(ctx, cases)
+
+
+def kernel_check(ctx, cases):
+    import subprocess
+    from harness.check import parse_nat_list
+    logs = {}
+    for backend in ('', 'SD'):
+        env = dict(os.environ, USIM_WAITQUEUE=backend)
+        p = subprocess.run([sys.executable, '-m', 'harness.kernel_driver'], input=json.dumps(cases), env=env, text=True,
+                           stdout=subprocess.PIPE, stderr=subprocess.PIPE, timeout=600)
+        if p.returncode != 0:
+            ctx.mismatch('kernel', None, None, None, 'the driver of the real Loop crashed (USIM_WAITQUEUE=%r): %s'
+                         % (backend, p.stderr[-600:]))
+            return
+        logs[backend] = json.loads(p.stdout)
+
+    def sg(x):
+        return 'None' if x is None else '(Some %d%%nat)' % x
+
+    def kop(op):
+        if op[0] == 'now':
+            return '(KNow %d%%nat %s)' % (op[1], sg(op[2]))
+        if op[0] == 'after':
+            return '(KAfter (Fin %d) %d%%nat %s)' % (op[1], op[2], sg(op[3]))
+        if op[0] == 'at':
+            return '(KAt (Fin %d) %d%%nat %s)' % (op[1], op[2], sg(op[3]))
+        return '(KRevoke %d%%nat)' % op[1]
+    rows = []
+    for i, c in enumerate(cases):
+        log = logs[''][i]
+        if isinstance(log, dict):
+            ctx.fail(c, 'the real Loop raised %s while executing a script of valid scheduling requests' % log['error'],
+                     family='kernel')
+            log = log['log']
+        rows.append('(if same (kexec nat (client [%s]) 400%%nat 0%%nat (loop_init %d%%nat (Fin (%d)))) [%s] then [] else [%d%%nat])' % (
+            '; '.join('[%s]' % '; '.join(kop(o) for o in ops) for ops in c['script']), c['nroots'], c['start'],
+            '; '.join('((%d), %d%%nat, %s)' % (t, a, sg(x)) for t, a, x in log), i))
+    text = ['From Coq Require Import ZArith List Arith Bool.', 'From Usim Require Import XTime Kernel.', 'Import ListNotations.',
+            'Open Scope Z_scope.',
+            'Definition client (script : list (list kop)) (k : nat) (l : loop) (a : activation) : nat * list kop :=',
+            '  (S k, nth k script []).',
+            'Definition osig_eqb (a b : option nat) : bool := match a, b with None, None => true | Some x, Some y => Nat.eqb x y | _, _ => false end.',
+            'Fixpoint same (ev : list exec_event) (obs : list (Z * nat * option nat)) : bool :=',
+            '  match ev, obs with [], [] => true',
+            '  | e :: r, (t, a, s) :: r2 => xeqb (e_time e) (Fin t) && Nat.eqb (a_tgt (e_act e)) a && osig_eqb (a_sig (e_act e)) s && same r r2',
+            '  | _, _ => false end.',
+            'Definition bad : list nat := flat_map (fun x => x) [%s].' % ';\n  '.join(rows),
+            'Eval vm_compute in bad.']
+    path = ctx.write_case_file('kernel_corr', '\n'.join(text) + '\n')
+    rc, out = ctx.run_case_files([path])[path]
+    bad = parse_nat_list(out) if rc == 0 else None
+    ctx.bump('family:kernel-correspondence', 2 * len(cases))
+    if bad is None:
+        ctx.mismatch('kernel', None, None, None, 'case file did not evaluate: %s' % out[-700:])
+    else:
+        for i in bad:
+            ctx.mismatch('kernel', cases[i], logs[''][i], 'kexec differs', '')
+    for i, c in enumerate(cases):
+        log = logs[''][i]
+        ts = [t for t, _, _ in (log['log'] if isinstance(log, dict) else log)]
+        if ts != sorted(ts):
+            ctx.fail(c, 'the real Loop executed activations at the times %r: the clock went backwards' % (ts,), family='kernel')
+        if logs['SD'][i] != logs[''][i]:
+            ctx.fail(c, 'the real Loop executes the same scheduling requests differently under USIM_WAITQUEUE=SD: %r vs %r (heap)'
+                     % (logs['SD'][i], logs[''][i]), family='kernel')
+
+
 def past_till(ctx, n):
     """`run(till=T)` with T before the start is `time == past`: it can never hold, so the run must be exactly the run
     without a till date"""
@@ -328,6 +428,15 @@ def search(ctx):
 
 
 def replay(ctx, rp):
+    case = rp.get('case') or (rp.get('mismatches') or [{}])[0].get('case')
+    if isinstance(case, dict) and 'script' in case:      # a script of scheduling requests for the bare Loop
+        ctx.build = ctx.build or __import__('harness.coqbuild', fromlist=['x']).ensure_built()
+        kernel_check(ctx, [case])
+        for f in ctx.failures:
+            print('real Loop:', f.explanation)
+        for m in ctx.mismatches:
+            print('real Loop %r differs from kexec' % (m['impl'],))
+        return not ctx.failures and not ctx.mismatches
     return machine_prop.replay(ctx, rp, MONITORS)
 
 
